@@ -347,8 +347,8 @@ func profDirLock(en *Env) {
 				// damage / repair the directory while nobody has it open; the damage makes Open fail in one of
 				// its three loading phases (DirLock.tla): listing the names, opening the files, reading the records
 				corrupt = !corrupt
-				stray := filepath.Join(dir, "backup.data")         // a data-file suffix without a numeric id
-				asDir := filepath.Join(dir, "000000007.data")      // a data file that cannot be opened (it is a directory)
+				stray := filepath.Join(dir, "backup.data")    // a data-file suffix without a numeric id
+				asDir := filepath.Join(dir, "000000007.data") // a data file that cannot be opened (it is a directory)
 				os.Remove(stray)
 				os.Remove(asDir)
 				b := append([]byte(nil), orig...)
